@@ -1,6 +1,7 @@
 import Compute.Lemmas.Rounding7
 import Compute.Props.Rounding7
 import Compute.Lemmas.C10LM
+import Compute.Lemmas.C10DeepEval
 import Mathlib.Analysis.Calculus.MeanValue
 import Mathlib.Analysis.SpecialFunctions.ExpDeriv
 import Mathlib.Analysis.Calculus.Deriv.Inv
@@ -356,11 +357,15 @@ section linear
 variable [Inhabited ℝ] [BEq ℝ] [LawfulBEq ℝ] [Transc ℝ] [FMax ℝ]
 variable {σ : Type}
 
-/-- **a model linear in the parameters**, seen through the evaluator interface of `lmG`: constant Jacobian
-`Jl` (`n × p`, row-major), residuals `y − J·θ`, no vanishing column; `abs` and `max` are the real ones -/
-structure LinModel (E : LMEval σ ℝ) (R Jf : List ℝ → List ℝ) (Jl : List ℝ) (yv : ℕ → ℝ) (p : ℕ) : Prop where
-  laws : EvalLaws E R Jf
-  hJf : ∀ θ, Jf θ = Jl
+/-- **a model linear in the parameters**, seen through the evaluator interface of `lmG`, with the evaluator laws
+RELATIVE TO AN INVARIANT `WF` of the tape state (`C10DeepEval.EvalLawsOn`; the unrestricted `EvalLaws` is not
+satisfiable by the evaluator of the source, `C10Deep.tapeEval_not_evalLaws`): constant Jacobian `Jl` (`n × p`,
+row-major) at parameter lists of length `p`, residuals `y − J·θ`, no vanishing column; `abs` and `max` are the
+real ones.  `tapeEval_linModel` (Props) shows that `tapeEval` of an RPN program linear in the parameters is one. -/
+structure LinModel (E : LMEval σ ℝ) (WF : σ → Prop) (R Jf : List ℝ → List ℝ) (Jl : List ℝ) (yv : ℕ → ℝ)
+    (p : ℕ) : Prop where
+  laws : EvalLawsOn E WF R Jf
+  hJf : ∀ θ : List ℝ, θ.length = p → Jf θ = Jl
   hJl : Jl.length = E.n * p
   hn : 0 < E.n
   hR : ∀ θ : List ℝ, θ.length = p → (R θ).length = E.n ∧
@@ -373,9 +378,9 @@ structure LinModel (E : LMEval σ ℝ) (R Jf : List ℝ → List ℝ) (Jl : List
 def Jm (Jl : List ℝ) (p : ℕ) : ℕ → ℕ → ℝ := fun k j => nth Jl (k * p + j)
 def θv (l : List ℝ) : ℕ → ℝ := fun j => nth l j
 
-variable {E : LMEval σ ℝ} {R Jf : List ℝ → List ℝ} {Jl : List ℝ} {yv : ℕ → ℝ} {p : ℕ}
+variable {E : LMEval σ ℝ} {WF : σ → Prop} {R Jf : List ℝ → List ℝ} {Jl : List ℝ} {yv : ℕ → ℝ} {p : ℕ}
 
-theorem A_pos (L : LinModel E R Jf Jl yv p) : ∀ i, i < p → 0 < A (Jm Jl p) E.n i i := by
+theorem A_pos (L : LinModel E WF R Jf Jl yv p) : ∀ i, i < p → 0 < A (Jm Jl p) E.n i i := by
   intro i hi
   obtain ⟨k, hk, hne⟩ := L.hcol i hi
   have h1 : Jm Jl p k i * Jm Jl p k i ≤ A (Jm Jl p) E.n i i :=
@@ -383,28 +388,28 @@ theorem A_pos (L : LinModel E R Jf Jl yv p) : ∀ i, i < p → 0 < A (Jm Jl p) E
       (Finset.mem_range.mpr hk)
   exact lt_of_lt_of_le (mul_self_pos.mpr hne) h1
 
-theorem rss_of_list (L : LinModel E R Jf Jl yv p) (θ : List ℝ) (hθ : θ.length = p) :
+theorem rss_of_list (L : LinModel E WF R Jf Jl yv p) (θ : List ℝ) (hθ : θ.length = p) :
     dot8 (R θ) (R θ) = Rounding7.LM.rss (Jm Jl p) E.n p yv (θv θ) := by
   obtain ⟨hl, he⟩ := L.hR θ hθ
   rw [dot8_sum _ _ rfl, hl]
   unfold Rounding7.LM.rss Jv
   exact Finset.sum_congr rfl fun k hk => by rw [he k (Finset.mem_range.mp hk)]; simp only [Jm, θv]; ring
 
-theorem grad_of_list (L : LinModel E R Jf Jl yv p) (θ : List ℝ) (hθ : θ.length = p) (i : ℕ) :
+theorem grad_of_list (L : LinModel E WF R Jf Jl yv p) (θ : List ℝ) (hθ : θ.length = p) (i : ℕ) :
     ∑ k ∈ range E.n, nth Jl (k * p + i) * nth (R θ) k = grad (Jm Jl p) E.n p yv (θv θ) i := by
   obtain ⟨_, he⟩ := L.hR θ hθ
   unfold grad Jv
   exact Finset.sum_congr rfl fun k hk => by rw [he k (Finset.mem_range.mp hk)]; rfl
 
 /-- the step the solver returns in `lmBody` is the LM step of `Rounding7.LM` -/
-theorem pass_step (L : LinModel E R Jf Jl yv p) (s : LMSt σ ℝ) (hB : Belongs E R Jf s)
+theorem pass_step (L : LinModel E WF R Jf Jl yv p) (s : LMSt σ ℝ) (hB : Belongs E R Jf s)
     (hlen : (E.vals s.tp).length = p) (hmu : 0 < s.mu) (δ : List ℝ)
     (hsolve : luSolveVec (damp (E.vals s.tp).length s.mu s.jtj) s.jtr = some δ) :
     δ.length = p ∧ s.jtr.length = p ∧
       (∀ i, i < p → nth s.jtr i = grad (Jm Jl p) E.n p yv (θv (E.vals s.tp)) i) ∧
       IsStep (Jm Jl p) E.n p s.mu yv (θv (E.vals s.tp)) (θv δ) := by
   obtain ⟨hres, hjtj, hjtr⟩ := hB
-  rw [L.hJf] at hjtj hjtr
+  rw [L.hJf _ hlen] at hjtj hjtr
   rw [hlen] at hsolve
   obtain ⟨hRl, _⟩ := L.hR (E.vals s.tp) hlen
   obtain ⟨hδl, hsys⟩ := step_of_model E.n p L.hn Jl (R (E.vals s.tp)) s.jtj s.jtr δ s.mu L.habs L.hJl hRl
@@ -449,7 +454,7 @@ end linear
 section pass
 variable [Inhabited ℝ] [BEq ℝ] [LawfulBEq ℝ] [Transc ℝ] [FMax ℝ]
 variable {σ : Type}
-variable {E : LMEval σ ℝ} {R Jf : List ℝ → List ℝ} {Jl : List ℝ} {yv : ℕ → ℝ} {p : ℕ}
+variable {E : LMEval σ ℝ} {WF : σ → Prop} {R Jf : List ℝ → List ℝ} {Jl : List ℝ} {yv : ℕ → ℝ} {p : ℕ}
 
 theorem rss_congr (J : ℕ → ℕ → ℝ) (n p : ℕ) (y x x' : ℕ → ℝ) (h : ∀ j, j < p → x j = x' j) :
     Rounding7.LM.rss J n p y x = Rounding7.LM.rss J n p y x' := by
@@ -464,30 +469,57 @@ theorem isLS_congr (J : ℕ → ℕ → ℝ) (n p : ℕ) (y x x' : ℕ → ℝ) 
   rw [← this]
   exact Finset.sum_congr rfl fun k _ => by rw [Jv_congr x x' h k]
 
-/-- the loop invariant of `lmLoop` on a linear model: the stored quantities belong to the current parameters,
+/-- the loop invariant of `lmLoop` on a linear model: well-formed tape state, the stored quantities belong to the
+current parameters,
 `p` parameters, positive damping parameters, and the damping is at most `Λ` unless the current parameters already
 are a least-squares solution -/
-def LinInv (E : LMEval σ ℝ) (R Jf : List ℝ → List ℝ) (Jl : List ℝ) (yv : ℕ → ℝ) (p : ℕ) (Lam : ℝ)
-    (s : LMSt σ ℝ) : Prop :=
-  Belongs E R Jf s ∧ (E.vals s.tp).length = p ∧ 0 < s.mu ∧ 0 < s.nu ∧
+def LinInv (E : LMEval σ ℝ) (WF : σ → Prop) (R Jf : List ℝ → List ℝ) (Jl : List ℝ) (yv : ℕ → ℝ) (p : ℕ)
+    (Lam : ℝ) (s : LMSt σ ℝ) : Prop :=
+  WF s.tp ∧ Belongs E R Jf s ∧ (E.vals s.tp).length = p ∧ 0 < s.mu ∧ 0 < s.nu ∧
     (s.mu ≤ Lam ∨ IsLS (Jm Jl p) E.n p yv (θv (E.vals s.tp)))
 
 theorem powi_three (x : ℝ) : powi x (3 : Int) = x ^ 3 := by
   have := C14L.powi_natCast x 3 (by norm_num)
   simpa using this
 
+/-- one pass of `lmBody` keeps "well-formed tape state" and "the stored quantities belong to the current
+parameters" for every evaluator obeying the relativised laws -/
+theorem wf_belongs_body (Lw : EvalLawsOn E WF R Jf) (h : LMHP ℝ) (s s' : LMSt σ ℝ) (hwf : WF s.tp)
+    (hB : Belongs E R Jf s) (hb : lmBody E h s = some s') : WF s'.tp ∧ Belongs E R Jf s' := by
+  rcases lmBody_cases E h s s' hb with h1 | h1 |
+    ⟨δ, tp', res', jac, jtj, jtr, hsolve, htry, _, hjac, hjtj, hjtr, hres, hj1, hj2, htp⟩
+  · subst h1; exact ⟨hwf, hB⟩
+  · refine ⟨by rw [h1]; exact (Lw.fresh s.tp).1, ?_⟩
+    rw [h1]
+    unfold Belongs at hB ⊢
+    simp only [(Lw.fresh s.tp).2]
+    exact hB
+  · obtain ⟨hwf', hv', hr⟩ := Lw.try_ s.tp δ tp' res' hwf htry
+    have hj := Lw.jac tp' jac hwf' hjac
+    have hv : E.vals s'.tp = E.vals tp' := by
+      rcases htp with h2 | h2
+      · rw [h2]
+      · rw [h2, (Lw.fresh tp').2]
+    refine ⟨?_, ?_⟩
+    · rcases htp with h2 | h2
+      · rw [h2]; exact hwf'
+      · rw [h2]; exact (Lw.fresh tp').1
+    · unfold Belongs
+      rw [hv, hres, hj1, hj2, ← hr, ← hj]
+      exact ⟨rfl, hjtj, hjtr⟩
+
 /-- **one pass of `lmBody` on a linear model**: the invariant is kept, the `JᵀJ`-distance to any least-squares
 solution does not increase, and it contracts by `q = Λκ/(1+Λκ)` unless the pass raises the stop flag -/
-theorem pass_linear (L : LinModel E R Jf Jl yv p) (h : LMHP ℝ) (Lam κ : ℝ) (hLam : 2 ≤ Lam) (hκ : 0 ≤ κ)
+theorem pass_linear (L : LinModel E WF R Jf Jl yv p) (h : LMHP ℝ) (Lam κ : ℝ) (hLam : 2 ≤ Lam) (hκ : 0 ≤ κ)
     (hκD : ∀ x : ℕ → ℝ, bD (Jm Jl p) E.n p x x ≤ κ * bA (Jm Jl p) E.n p x x)
     (θs : ℕ → ℝ) (hs : IsLS (Jm Jl p) E.n p yv θs) (s s' : LMSt σ ℝ)
-    (hI : LinInv E R Jf Jl yv p Lam s) (hb : lmBody E h s = some s') :
-    LinInv E R Jf Jl yv p Lam s' ∧
+    (hI : LinInv E WF R Jf Jl yv p Lam s) (hb : lmBody E h s = some s') :
+    LinInv E WF R Jf Jl yv p Lam s' ∧
     errA Jl E.n p θs (E.vals s'.tp) ≤ errA Jl E.n p θs (E.vals s.tp) ∧
     (s'.stop = true ∨
       errA Jl E.n p θs (E.vals s'.tp) ≤ Lam * κ / (1 + Lam * κ) * errA Jl E.n p θs (E.vals s.tp)) := by
-  obtain ⟨hB, hlen, hmu, hnu, hdisj⟩ := hI
-  have hB' := lmBody_belongs E R Jf L.laws h s s' hB hb
+  obtain ⟨hwf, hB, hlen, hmu, hnu, hdisj⟩ := hI
+  obtain ⟨hwf', hB'⟩ := wf_belongs_body L.laws h s s' hwf hB hb
   have hq0 : 0 ≤ Lam * κ / (1 + Lam * κ) := div_nonneg (by nlinarith) (by nlinarith)
   have hq1 : Lam * κ / (1 + Lam * κ) ≤ 1 := (lm_rate_lt_one Lam κ (by linarith) hκ).le
   have herr0 : 0 ≤ errA Jl E.n p θs (E.vals s.tp) := bA_self_nonneg _
@@ -496,8 +528,8 @@ theorem pass_linear (L : LinModel E R Jf Jl yv p) (h : LMHP ℝ) (Lam κ : ℝ) 
   obtain ⟨hδl, hjl, hjtr, hstep⟩ := pass_step L s hB hlen hmu δ hsolve
   rcases hcase with ⟨_, rfl⟩ | ⟨_, tp', res', htry, hcase⟩
   · -- the step is small: stop
-    exact ⟨⟨hB', hlen, hmu, hnu, hdisj⟩, le_refl _, Or.inl rfl⟩
-  · obtain ⟨hv', hres'⟩ := L.laws.try_ s.tp δ tp' res' htry
+    exact ⟨⟨hwf', hB', hlen, hmu, hnu, hdisj⟩, le_refl _, Or.inl rfl⟩
+  · obtain ⟨_, hv', hres'⟩ := L.laws.try_ s.tp δ tp' res' hwf htry
     have hl' : (E.vals tp').length = p := by rw [hv']; simp [hlen, hδl]
     have hent : ∀ j, j < p → nth (E.vals tp') j = θv (E.vals s.tp) j + θv δ j := by
       intro j hj
@@ -523,17 +555,17 @@ theorem pass_linear (L : LinModel E R Jf Jl yv p) (h : LMHP ℝ) (Lam κ : ℝ) 
         rw [e1, e2, e3, e4]
         exact hpos
       have hz := errA_zero_of_LS (Jm Jl p) E.n p yv (θv (E.vals s.tp)) θs hLS hs
-      refine ⟨⟨hB', by simp only [L.laws.fresh]; exact hlen, mul_pos hmu hnu,
-        mul_pos hnu (by norm_num), Or.inr (by simp only [L.laws.fresh]; exact hLS)⟩, ?_, Or.inr ?_⟩
-      · simp only [L.laws.fresh]; exact le_refl _
-      · simp only [L.laws.fresh]
+      refine ⟨⟨hwf', hB', by simp only [(L.laws.fresh s.tp).2]; exact hlen, mul_pos hmu hnu,
+        mul_pos hnu (by norm_num), Or.inr (by simp only [(L.laws.fresh s.tp).2]; exact hLS)⟩, ?_, Or.inr ?_⟩
+      · simp only [(L.laws.fresh s.tp).2]; exact le_refl _
+      · simp only [(L.laws.fresh s.tp).2]
         have : errA Jl E.n p θs (E.vals s.tp) = 0 := hz
         rw [this]; simp
     · -- accepted
       have hvs : E.vals s'.tp = E.vals tp' := by
         rcases hcase with ⟨_, rfl⟩ | ⟨_, rfl⟩
         · rfl
-        · exact L.laws.fresh tp'
+        · exact (L.laws.fresh tp').2
       have herrs : errA Jl E.n p θs (E.vals s'.tp) =
           bA (Jm Jl p) E.n p (fun j => (θv (E.vals s.tp) j - θs j) + θv δ j)
             (fun j => (θv (E.vals s.tp) j - θs j) + θv δ j) := by
@@ -559,7 +591,7 @@ theorem pass_linear (L : LinModel E R Jf Jl yv p) (h : LMHP ℝ) (Lam κ : ℝ) 
           rw [this]; simp
       have hle1 : errA Jl E.n p θs (E.vals s'.tp) ≤ errA Jl E.n p θs (E.vals s.tp) :=
         le_trans hcontr (by nlinarith)
-      refine ⟨⟨hB', by rw [hvs]; exact hl', ?_, ?_, ?_⟩, hle1, Or.inr hcontr⟩
+      refine ⟨⟨hwf', hB', by rw [hvs]; exact hl', ?_, ?_, ?_⟩, hle1, Or.inr hcontr⟩
       · rcases hcase with ⟨_, rfl⟩ | ⟨_, rfl⟩
         · exact hmu
         · show 0 < FMax.fmax _ _
